@@ -31,6 +31,7 @@ package harness
 // s.conns (ServerLife.v: OAccept AConn; OClose; ORegister k).
 
 import (
+	"sync/atomic"
 	"bufio"
 	"context"
 	"errors"
@@ -226,7 +227,19 @@ func RunLife(ops []lifeOp, pendingProbe time.Duration) *Sx {
 
 // RunLifeF: the same with a listener whose Close returns an error
 // (lisFail "once" / "always"; "" = a listener that closes cleanly).
+// after three calls that never returned the generator gives up on the implementation: what has been
+// recorded (with its (timeout) observations) is judged, the rest is not worth another watchdog period each
+var lifeTimeouts int32
+
+func lifeTimeoutObs() *Sx {
+	atomic.AddInt32(&lifeTimeouts, 1)
+	return L(A("timeout"))
+}
+
 func RunLifeF(ops []lifeOp, pendingProbe time.Duration, lisFail string) *Sx {
+	if atomic.LoadInt32(&lifeTimeouts) >= 3 {
+		return nil
+	}
 	l := newLifeListener()
 	l.failClose = lisFail
 	// the call went through: it did its work and returned nil or the listener's error
@@ -304,7 +317,7 @@ func RunLifeF(ops []lifeOp, pendingProbe time.Duration, lisFail string) *Sx {
 				select {
 				case l.next <- lifeItem{conn: sc}:
 				case <-time.After(lifeWatchdog):
-					obs.Add(L(A("timeout")))
+					obs.Add(lifeTimeoutObs())
 					continue
 				}
 				lc := &lifeConn{client: c1, server: sc, state: "open"}
@@ -314,7 +327,7 @@ func RunLifeF(ops []lifeOp, pendingProbe time.Duration, lisFail string) *Sx {
 				line, err := bufio.NewReader(c1).ReadString('\n')
 				c1.SetReadDeadline(time.Time{})
 				if err != nil || len(line) < 3 || line[:3] != "220" || !waitAccept() {
-					obs.Add(L(A("timeout")))
+					obs.Add(lifeTimeoutObs())
 					continue
 				}
 				obs.Add(L(A("accepted")))
@@ -322,7 +335,7 @@ func RunLifeF(ops []lifeOp, pendingProbe time.Duration, lisFail string) *Sx {
 				select {
 				case l.next <- lifeItem{err: lifeTempErr{}}:
 				case <-time.After(lifeWatchdog):
-					obs.Add(L(A("timeout")))
+					obs.Add(lifeTimeoutObs())
 					continue
 				}
 				// Serve either sleeps and calls Accept again, or returns
@@ -337,13 +350,13 @@ func RunLifeF(ops []lifeOp, pendingProbe time.Duration, lisFail string) *Sx {
 					serveRes = lifeRetName(err)
 					obs.Add(L(A("serveret"), A(serveRes)))
 				case <-time.After(lifeWatchdog):
-					obs.Add(L(A("timeout")))
+					obs.Add(lifeTimeoutObs())
 				}
 			case "perm":
 				select {
 				case l.next <- lifeItem{err: errLifePerm}:
 				case <-time.After(lifeWatchdog):
-					obs.Add(L(A("timeout")))
+					obs.Add(lifeTimeoutObs())
 					continue
 				}
 				select {
@@ -354,7 +367,7 @@ func RunLifeF(ops []lifeOp, pendingProbe time.Duration, lisFail string) *Sx {
 					serveRes = lifeRetName(err)
 					obs.Add(L(A("serveret"), A(serveRes)))
 				case <-time.After(lifeWatchdog):
-					obs.Add(L(A("timeout")))
+					obs.Add(lifeTimeoutObs())
 				}
 			}
 		case "close", "wclose":
@@ -385,7 +398,7 @@ func RunLifeF(ops []lifeOp, pendingProbe time.Duration, lisFail string) *Sx {
 					}
 				}
 				if hung {
-					obs.Add(L(A("timeout")))
+					obs.Add(lifeTimeoutObs())
 				} else {
 					obs.Add(L(A("ret"), A(lifeRetName(err))))
 				}
@@ -420,7 +433,7 @@ func RunLifeF(ops []lifeOp, pendingProbe time.Duration, lisFail string) *Sx {
 				}
 			case <-time.After(lifeWatchdog):
 				l.setOnClose(nil)
-				obs.Add(L(A("timeout")))
+				obs.Add(lifeTimeoutObs())
 			}
 			stopped = true
 		case "shutdown", "wshutdown":
@@ -465,7 +478,7 @@ func RunLifeF(ops []lifeOp, pendingProbe time.Duration, lisFail string) *Sx {
 				if hung {
 					l.setOnClose(nil)
 					cancel()
-					obs.Add(L(A("timeout")))
+					obs.Add(lifeTimeoutObs())
 					stopped = true
 					continue
 				}
@@ -484,7 +497,7 @@ func RunLifeF(ops []lifeOp, pendingProbe time.Duration, lisFail string) *Sx {
 			case <-time.After(wait):
 				if wait == lifeWatchdog {
 					cancel()
-					obs.Add(L(A("timeout")))
+					obs.Add(lifeTimeoutObs())
 				} else {
 					obs.Add(L(A("pending")))
 					pending = true
@@ -502,7 +515,7 @@ func RunLifeF(ops []lifeOp, pendingProbe time.Duration, lisFail string) *Sx {
 			c := conns[o.k]
 			c.client.Close()
 			if !waitClosed(c) {
-				obs.Add(L(A("timeout")))
+				obs.Add(lifeTimeoutObs())
 				continue
 			}
 			c.state = "finished"
@@ -518,7 +531,7 @@ func RunLifeF(ops []lifeOp, pendingProbe time.Duration, lisFail string) *Sx {
 					obs.Add(L(A("sdret"), A(lifeRetName(err))))
 				case <-time.After(wait):
 					if wait != 0 {
-						obs.Add(L(A("timeout")))
+						obs.Add(lifeTimeoutObs())
 					} else {
 						obs.Add(L(A("none")))
 					}
@@ -537,7 +550,7 @@ func RunLifeF(ops []lifeOp, pendingProbe time.Duration, lisFail string) *Sx {
 				pending = false
 				obs.Add(L(A("sdret"), A(lifeRetName(err))))
 			case <-time.After(lifeWatchdog):
-				obs.Add(L(A("timeout")))
+				obs.Add(lifeTimeoutObs())
 			}
 		}
 	}
@@ -574,11 +587,16 @@ func RunLifeF(ops []lifeOp, pendingProbe time.Duration, lisFail string) *Sx {
 	if sdCancel != nil {
 		sdCancel()
 	}
-	s.Close()
-	l.Close()
 	for _, c := range conns {
 		c.client.Close()
 	}
+	closed := make(chan struct{})
+	go func() { s.Close(); close(closed) }()
+	select {
+	case <-closed:
+	case <-time.After(2 * time.Second):
+	}
+	l.Close()
 	if serving {
 		select {
 		case <-serveRet:
